@@ -13,7 +13,7 @@ CHECKS = {
    text="For each of the 36 IR node types with a DeepCopy method: zero value, all-fields-set values (every declared field non-zero, found by reflection so new fields are covered automatically), one value per single field, five contents for untyped slots, plus grammar-I types/schemas/builders. Every value is copied by the real DeepCopy; equality is checked field by field incl. unexported fields; the reachable address sets of original and copy must be disjoint; every reachable location of the copy is written once and the original's snapshot must not change.",
    note="Untyped slots that only ever hold immutable scalars are filled with scalars only; nil and empty collections are the same; a Schema always has a non-nil object map (ast.NewSchema). Values larger than the filler's recursion bound (2 quick / 3 thorough) are not covered.", ref="§6 C18"),
  "C03": dict(engine=E2, technique="stateless deviation-bounded DFS over map-iteration-order choices of the instrumented real pipeline (controlled scheduler), plus uniform per-site policies",
-   text="Every `range <map>` in cog and codejen is rewritten (go/types-driven, at check time, on the current tree) to ask a scheduler for the order. For 5 pipeline scenarios x {run, inspect}: all schedules with <=1 dynamic point (thorough: <=2 on the reduced scenario) departing from the canonical order, all n! orders for n<=4, plus per-site reversal/rotation policies; each must reproduce the default schedule's file set, file hashes and inspect IR. Default schedule replayed 3x in 2 processes; replay divergence is a hard error; a canary map proves the scheduler drives executions.",
+   text="Every `range <map>` in cog and codejen is rewritten (go/types-driven, at check time, on the current tree) to ask a scheduler for the order. For 13 pipeline scenarios (JSON Schema / OpenAPI / CUE inputs, common passes, veneers incl. compose and merge_into with chained renames, map-valued defaults, nested CUE libraries, overlapping unions of constants) x {run, inspect}: all schedules with <=1 dynamic point (thorough: <=2 on the reduced scenario) departing from the canonical order, all n! orders for n<=4, plus per-site reversal/rotation policies; each must reproduce the default schedule's file set, file hashes and inspect IR. Default schedule replayed 3x in 2 processes; replay divergence is a hard error; a canary map proves the scheduler drives executions.",
    note="Map iteration inside third-party libraries is not instrumented; sites never reached with >=2 keys are listed as not exercised; points with >4 keys offer rotations, reversal and adjacent transpositions only (reported as capped).", ref="§6 C03"),
  "C05": dict(engine=E3, technique="exhaustive enumeration of schemas x formats x language chains, explicit-state BFS over name-changing passes, all allow-list subsets; independent reference walker as invariant",
    text="(1) 189 abstract schemas x 3 formats through the real loaders, (2) ~1300 IRs x 7 language chains through Pipeline.ContextForLanguage with builders, (3) BFS depth<=2 (thorough 3) over rename/prefix/duplicate/unspec/replace_reference x target variants from 14 seeds, (4) every subset of every seed schema as allow-list; an independent walker (not compiler.Visitor) checks that every judged reference resolves / that the closure is exact.",
@@ -67,6 +67,28 @@ CHECKS = {
    text="(a) ~1900 hand-rendered special shapes + grammar G in 3 formats x 7 languages x output selections; (b) for 114 seed documents every truncation offset and every token x 14 operators, plus all strings of <=3 (thorough 4) symbols, fed to the JSON Schema / OpenAPI / CUE / YAML entry points, and every IR the mutants still load into is run through the full pipeline; (c) every scalar position of 59 configuration templates replaced by 7 wrong-type values, 140 `if:` expressions, 78 `as:` types x passes and rules, then applied to a small schema; (d) ~2000 (thorough 7500) IRs incl. dangling and cyclic references through every pass, language chain, builder generator and jenny. A case passes if it returns files or an error; a recovered panic, a dead worker (stack overflow) or a hang is a finding identified by its crash site.",
    note="A hang is a request exceeding 30 s (cases take milliseconds) that reproduces three times in isolation; workers run with a 64 MiB stack limit and an address-space limit; map iteration inside one run is not controlled (one output language per run keeps the crashing language deterministic).", ref="§6 C04"),
 }
+
+# what the seeding rounds added to each space (DESIGN §11.7)
+EXTRA = {
+ "C01": "C01 alone also enumerates JSON Schema type-list spellings of nullable scalars (null first / last) and nullable inline structs in field, item and value positions.",
+ "C04": "Also: 29 parameter sets x 23 interpolated settings (cycles, chains, self-growth) under a watchdog with three confirmations; the value types each front-end actually produces (const/default/enum x kind x Go dynamic type) through every pass; recursive array/map aliases in every position; struct-level defaults (17 member kinds x 10 values x 5 placements) in all formats and languages.",
+ "C05": "Every language chain is also followed by name-changing FINAL passes in the same Passes.Process run (no deep copy in between) and BFS sequences are additionally applied in one run; OpenAPI discriminator mappings in bare, partial and partial-ref forms.",
+ "C06": "Also wrapper towers to depth 5 (thorough 6), enums as member sequences (all sequences <= 3 over plain / numeric / negative names, string- and int-typed) and unions of constants in every order.",
+ "C07": "Seeds include one with every path-resolving veneer kind; parts b/c also run in ten cross-reference variants (package i refers to Part of package j, every package has a Part; referrer-only packages sorting first and last). A base run that fails while every input generates alone is a violation.",
+ "C08": "Defaults of every value type incl. empty/zero and defaults declared on the non-null branch of a nullable, x the remove-required fault.",
+ "C09": "Two-package (twin) units per veneer variant; constrained schemas in all three formats; the xbounds flavour (]0,5]) with reference validators built from the rewritten text.",
+ "C10": "Zero/empty defaults of every type, 2- and 3-level nested struct defaults in both declaration orders, boundary numerics (2^53+1, MaxInt64, ...) as constants, defaults and enum members, units enabling the anchored passes.",
+ "C12": "Two- and three-package inputs; unions with a reference branch to a union / enum / alias object in every position, judged against the IR as loaded (before the emitters' own passes).",
+ "C13": "A third configuration with two packages holding homonymous definitions (all ordered pairs, both input orders), multi-field shapes, the full matrix on each package's Root.",
+ "C14": "Multi-rule veneer scenarios (duplicate + initialize + promote with 0-4 constant members), struct-level defaults with document classes as part of the failure kind, twin units.",
+ "C15": "Multi-reference lists for every list-valued parameter (same name in 2-3 packages, case twins, absent first, both orders).",
+ "C16": "A second layer goes through codegen.Pipeline.ContextForLanguage in 9 configurations (no language, final passes, each language) and derives the model from that context's own schemas; default flavours zero / emptylist / emptymap.",
+ "C17": "Every builder rule kind also behind cross-package selectors (by_variant, generated_from_disjunction) over seeds with homonymous objects in several packages.",
+ "C19": "Operations documented as returning a new map are checked for independence unconditionally (a result that IS the receiver fails); re-entrant histories (a callback of Iterate/Filter/Map removes or sets a key once) with a lenient oracle: no phantom keys, no duplicates, insertion order, untouched keys not skipped, final state = model.",
+ "C20": "Items of all five unions (passes, builders, options, inputs, output.languages) are rule entries; lists [E,E], [W,E], [E,W], [W,E,W]; loading a pipeline = PipelineFromFile + the union resolution Run performs first.",
+}
+for _k, _v in EXTRA.items():
+    CHECKS[_k]["text"] += " " + _v
 
 NOT_YET = "check not built yet in this session (planned, see DESIGN.md §6); not claimed until it runs clean on the unchanged tree"
 NA = {}
